@@ -56,7 +56,7 @@ def make_template(source, syntax, ctor_map=None, ctor_kw=None, vars_=None,
 
 
 def run_impl(source, syntax, ns_spec, world_kw=None, call='kw',
-             level=None, template=None):
+             level=None, template=None, reenter=None):
     """Render source with the namespace built from ns_spec.
     call: 'kw' (values as keyword arguments), 'mapping', or 'sub' (invoked as
     a sub-template on a harness-owned TemplateDict)."""
@@ -67,6 +67,26 @@ def run_impl(source, syntax, ns_spec, world_kw=None, call='kw',
     guard.__enter__()
     try:
         t = template or make_template(source, syntax)
+        if reenter:
+            # reenter = (names, ns_spec2): while one of these recorders is
+            # called, the same compiled template is rendered once more, from
+            # the top, in a namespace of its own (a recursive template)
+            busy = []
+
+            def nested():
+                if busy:
+                    return
+                busy.append(1)
+                try:
+                    w2 = World(return_exc=DTReturn)
+                    t(**build_ns(reenter[1], w2, 'impl'))
+                except Exception:
+                    pass
+                finally:
+                    busy.pop()
+            for name in reenter[0]:
+                if isinstance(ns.get(name), Rec):
+                    ns[name].pre = nested
         if call == 'kw':
             out = ('text', t(**ns))
         elif call == 'mapping':
